@@ -226,7 +226,7 @@ fn diag(m: &Machine) -> Value {
             let mut ks: Vec<_> = s.key_states.iter().filter(|(_, v)| v.pressed || v.debounced || v.press_ticks != 0 || v.release_ticks != 0 || v.repeat_ticks != 0)
                 .map(|(k, v)| format!("{k}:{}:{}:{}:{}:{}", v.pressed, v.debounced, v.press_ticks, v.release_ticks, v.repeat_ticks)).collect();
             ks.sort();
-            json!({"kol": s.kol, "koh": s.koh, "kil_latch": s.kil_latch, "fifo_len": s.fifo_len, "fifo": s.fifo,
+            json!({"kol": s.kol, "koh": s.koh, "fifo_len": s.fifo_len, "fifo": s.fifo,
                    "head": s.head, "tail": s.tail, "irq_count": s.irq_count, "strobe_count": s.strobe_count,
                    "pressed": s.pressed_keys, "keys": ks, "hist": s.column_histogram,
                    "thresholds": [s.press_threshold, s.release_threshold, s.repeat_delay, s.repeat_interval],
